@@ -16,7 +16,7 @@ SECRETS = ["none", "right", "wrong", "prefix1", "prefixall", "suffix", "plus", "
 BOUNDARY = SECRETS[3:]
 MSTATES = ["active", "revoked", "expired", "inactive", "missing", "exp25s", "exp10s", "exp2s", "exp1ms", "soon60s"]
 TSTATES = ["none", "waiting", "served", "remote"]
-PARTIES = ["normal", "listen0", "target0"]
+PARTIES = ["normal", "listen0", "target0", "nosecret"]
 
 # witnesses of the recorded defects of the tree as found (Proofs/TunnelOpen.v w_cell_*): they also tell which tree this is
 P_EXISTING = dict(id="none", mid="tunnel", secret="none", resume=False, mstate="missing", tstate="waiting")
@@ -50,6 +50,9 @@ def all_cells():
         out += [dict(id=i, mid=m, secret=s, resume=False, mstate=ms, tstate=ts, party=p)
                 for i in IDS for m in MIDS for s in ("none", "right", "wrong", "prefix1") for ms in ("active", "revoked", "missing")
                 for ts in ("none", "waiting", "remote")]
+    # mappings that store NO secret (ActivateConnectionCode creates them so): presented secrets none / unrelated non-empty
+    out += [dict(id=i, mid=m, secret=s, resume=False, mstate=ms, tstate=ts, party="nosecret")
+            for i in IDS for m in MIDS for s in ("none", "wrong") for ms in ("active", "revoked", "missing") for ts in ("none", "waiting", "remote")]
     return out
 
 
@@ -67,7 +70,8 @@ def describe(c):
     ts = {"none": "a tunnel id nobody uses", "waiting": "the id of a tunnel whose bridge waits for its target on this node",
           "served": "the id of a tunnel already connected end to end", "remote": "the id of a tunnel waiting on another node"}[c["tstate"]]
     party = {"normal": "", "listen0": "; the mappings have a SERVER-SIDE listener (stored listening client id 0)",
-             "target0": "; the mappings have no target client (stored target client id 0)"}[c.get("party", "normal")]
+             "target0": "; the mappings have no target client (stored target client id 0)",
+             "nosecret": "; the mappings store NO secret (empty SecretKey, as connection-code mappings)"}[c.get("party", "normal")]
     return ("%s sends TunnelOpen with %s, %s%s, %s (named/tunnel mapping is %s)" + party) % (
         who, names, sec, ", a resume token" if c["resume"] else "", ts, c["mstate"])
 
@@ -91,7 +95,7 @@ def load_corpus():
 # multi-step histories (harness/cmd/c04/hist.go; model: Corr/C04.v h_run over Model.TunnelOpen.step)
 # ------------------------------------------------------------------------------------------------------------------
 WHO = ["none", "half", "L", "T", "S", "X"]
-HMID = ["none", "m1", "m2", "m3"]     # m3: server-side listener (stored listening client id 0), target client T
+HMID = ["none", "m1", "m2", "m3", "m4"]   # m4: (L -> T) storing NO secret;     # m3: server-side listener (stored listening client id 0), target client T
 HSTATES = MSTATES
 
 
@@ -224,6 +228,11 @@ def directed_histories():
         out.append(H(True, RT(0, "self", m), O(who, m, "right"), RT(0, "none"), own_open))
         out.append(H(True, RT(0, "self", m), O(who, m, "right"), RT(0, "none"), other_open, O(who, m, "right")))
     out.append(H(True, RT(0, "self", "m1"), O("X", "m2", "right"), O("none", "m1", "none")))
+    # a mapping that stores NO secret: any non-empty presented secret is wrong, for every identity, on new and live tunnels
+    for who in ("L", "T", "X", "half"):
+        out.append(H(False, O(who, "m4", "wrong"), O("L", "m4", "none"), O(who, "m4", "wrong"), O(who, "m4", "wrong", 1)))
+        out.append(H(True, O("L", "m4", "none"), O(who, "m4", "wrong"), O(who, "m4", "none", 1)))
+    out.append(H(True, RT(0, "other", "m4"), O("T", "m4", "wrong"), O("L", "m4", "wrong"), O("L", "m4", "none")))
     # boundary secrets in every family: after a legitimate open / on a live tunnel / parked early / on a routing record
     for k in ["wrong"] + BOUNDARY:
         out.append(H(False, O("L", "m1", "right"), O("T", "m1", k), O("L", "m1", k, 1), O("T", "m1", "right")))
@@ -309,6 +318,21 @@ def xnode_cases(rng, thorough):
              {"mode": "xnode", "tids": ["16"], "steps": [XO("B", "L", "m1", "none"), XO("A", "T", "m1", "right"), XO("A", "X", "m2", "right")]}]
     for k in BOUNDARY + ["wrong", "none"]:
         legit.append({"mode": "xnode", "tids": ["short"], "steps": [XO("A", "L", "m1", "right"), XO("B", "T", "m1", k), XO("B", "T", "m1", "right")]})
+    # long tunnel ids sharing a long prefix (the routing key must be the FULL id): the victim's tunnel #0 is older than its record
+    # (expire), the attacker's own tunnel #1 = first N bytes of #0 + "-x" lives on the same node, its target asks for #0 elsewhere
+    for vlen in ("65", "100", "64", "63"):
+        for cut in ("cut63+x", "cut64+x", "cut65+x"):
+            if int(cut[3:5]) > int(vlen):
+                continue
+            v, a = XO("A", "L", "m1", "right", 0), XO("A", "S", "m2", "right", 1)
+            legit.append({"mode": "xnode", "tids": [vlen, cut], "steps": [v, {"op": "expire", "tun": 0}, a, XO("B", "X", "m2", "right", 0)]})
+            legit.append({"mode": "xnode", "tids": [vlen, cut], "steps": [v, a, XO("B", "X", "m2", "right", 0), XO("B", "X", "m2", "right", 1), XO("B", "T", "m1", "right", 0)]})
+    # a client-chosen tunnel id that contains the separator of the TargetReady message ("victim|x")
+    for shape in ("short", "16", "long"):
+        legit.append({"mode": "xnode", "tids": [shape, "+|x"], "sep": True,
+                      "steps": [XO("A", "L", "m1", "right", 0), XO("A", "S", "m2", "right", 1), XO("B", "X", "m2", "right", 1)]})
+        legit.append({"mode": "xnode", "tids": [shape, "+|x"], "sep": True,
+                      "steps": [XO("A", "S", "m2", "right", 1), XO("B", "X", "m2", "right", 1), XO("A", "L", "m1", "right", 0), XO("B", "T", "m1", "right", 0)]})
     # server-side listener on node A (the server starts the tunnel itself), requesters on the other node
     srv = []
     for who, sec in (("half", "none"), ("half", "right"), ("none", "none"), ("none", "right"), ("X", "right"), ("T", "prefix1")):
@@ -323,6 +347,8 @@ def xnode_str(c):
             return "release(step %d)" % s["step"]
         if s["op"] == "srv":
             return "server-starts-tunnel@A(m3,id#%d)" % s["tun"]
+        if s["op"] == "expire":
+            return "record-of-id#%d-expires" % s["tun"]
         return "%sopen@%s(%s,%s,%s,id#%d)" % ("GATED " if s.get("gate") else "", s["node"], s["who"], s["mid"], s["secret"], s["tun"])
     return "two nodes, tunnel ids %s: %s" % (c["tids"], "; ".join(one(s) for s in c["steps"]))
 
@@ -362,6 +388,7 @@ def replace_cases():
 P_RACE = {"mode": "race", "a": dict(who="L", mid="m1", secret="right"), "b": dict(who="X", mid="m2", secret="right"), "gate": 0}
 K_RACE = "race-late-attach-unvalidated"
 K_STALE = "singleflight-stale-read-after-update"
+K_SEP = "target-ready-separator-in-tunnel-id"
 
 
 def race_str(c):
@@ -402,6 +429,8 @@ def random_history(rng, routing):
             who = rng.choice(["L", "L", "T", "T", "S", "X", "X", "none", "half"])
             mid = rng.choice(["m1", "m1", "m1", "m2", "m2", "none", "m3", "m3"])
             secret = rng.choice(["none", "right", "right", "right", "wrong"] + BOUNDARY)
+            if rng.random() < 0.06:
+                mid, secret = "m4", rng.choice(["none", "wrong", "wrong", "right"])
             steps.append(O(who, mid, secret, rng.choice([0, 0, 0, 1])))
         elif k < 0.82:
             steps.append(SM(rng.choice(["m1", "m1", "m2", "m3"]), rng.choice(["active", "revoked", "expired", "inactive", "missing", "revoked", "exp25s", "exp10s", "exp2s", "exp1ms", "soon60s"])))
@@ -575,7 +604,7 @@ def run(ctx, only_cases=None):
         pinfo = vlib.coq_properties("C04")
         # Proofs/SideC04.vo (the regenerated side conditions) is a dependency of Properties/C04.v: built and checked by the call above
         vlib.proof_coverage(ctx, pinfo, "make -C coq Properties/C04.vo Proofs/SideC04.vo && coqc Properties/C04.v (Print Assumptions audit)",
-                            extra_obligations=6)  # the 6 regenerated side conditions in Proofs/SideC04.v
+                            extra_obligations=8)  # the 8 regenerated side conditions in Proofs/SideC04.v
     except vlib.Broken as b:
         broken = b   # keep going: search the implementation for a concrete failing cell first
 
@@ -611,7 +640,7 @@ def run(ctx, only_cases=None):
     hists = h_local + h_route
     houts = run_sharded(binary, h_local, 2) + run_sharded(binary, h_route, 12 if thorough else 6)
     routs = vlib.run_harness(binary, races[:1], timeout=300) + run_sharded(binary, races[1:], 4)
-    xouts = run_sharded(binary, [{k: v for k, v in c.items() if k != "shape"} for c in xcases], 8 if thorough else 4)
+    xouts = run_sharded(binary, [{k: v for k, v in c.items() if k not in ("shape", "sep")} for c in xcases], 8 if thorough else 4)
     stale_cases = [{"mode": "stale", "change": ch, "secret": sec} for ch in ("revoked", "exp2s", "inactive") for sec in ("none", "right")]
     souts = run_one(binary, stale_cases, 300) if only_cases is None or any(c.get("mode") == "stale" for c in only_cases) else []
     stale_defect = any(o.get("class") == "stale-read" for o in souts)
@@ -728,6 +757,12 @@ def run(ctx, only_cases=None):
     xfail = 0
     for c, o in zip(xcases, xouts):
         if o["prop_ok"]:
+            continue
+        if c.get("sep") and o.get("class") == "xnode-attach" and "which it never named" in o.get("prop_msg", ""):
+            if K_SEP not in reported:
+                reported.add(K_SEP)
+                ctx.violation(K_SEP, "real two-node cluster [%s]: %s" % (xnode_str(c), o["prop_msg"]),
+                              {"case": {k: v for k, v in c.items() if k not in ("shape", "sep")}, "observed": o})
             continue
         xfail += 1
         nfail += 1
@@ -890,7 +925,7 @@ def run(ctx, only_cases=None):
                                   for h, o in list(zip(hists, houts))[:: max(1, len(hists) // 3)][:3]]},
         "rule": "the full table identity(5: none/half-handshaken/listen/target/stranger) x named mapping(3: none/the tunnel's/another one owned by "
                 "the requester) x secret(10) x resume token(2) x state of the named mapping(10) x tunnel state at arrival(4: no bridge / bridge "
-                "waiting locally / bridge already served / waiting on another node via the routing table) = 12000 cells for ordinary mappings + a 1080-cell sub-table with the mapping-party dimension (stored listening client id 0 = server-side listener, started by the server itself through StartServerTunnel; stored target client id 0) (mapping state: active / revoked / expired an hour, 25 s, 10 s, 2 s, 1 ms ago / expiring in 60 s / inactive / missing; secret: none / right / unrelated / first character / all but last / all but first / right+1 / case flipped / one character changed / another mapping's secret), every one driven through "
+                "waiting locally / bridge already served / waiting on another node via the routing table) = 12000 cells for ordinary mappings + a 270-cell sub-table of mappings that store NO secret + a 1080-cell sub-table with the mapping-party dimension (stored listening client id 0 = server-side listener, started by the server itself through StartServerTunnel; stored target client id 0) (mapping state: active / revoked / expired an hour, 25 s, 10 s, 2 s, 1 ms ago / expiring in 60 s / inactive / missing; secret: none / right / unrelated / first character / all but last / all but first / right+1 / case flipped / one character changed / another mapping's secret), every one driven through "
                 "the real SessionManager.HandlePacket on fresh connections, mappings and tunnel ids of a fully wired server fixture (real "
                 "handshakes, real bridge, real routing table and dedicated cross-node connection to a fake peer node); witnesses and corpus "
                 "first, arrival order shuffled from VERIF_SEED (thorough: four orders). distinct = distinct cells; non-trivial = a tunnel "
